@@ -32,6 +32,8 @@ func init() {
 			ruleValueStrGuarded(r)
 			ruleDecolorize(r)
 			ruleCHParseSites3(r)
+			ruleDropKeepMatchers(r)
+			ruleNoInPlaceValueMutation(r, []string{enginePkg, metricPkg}, 3)
 		},
 	})
 }
